@@ -64,6 +64,15 @@ def step (line : String) : String :=
             ";".intercalate (rows.map fun r => ",".intercalate (r.map showCell))
       | r => r.tag
     | _, _ => "bad-op"
+  | ["c10rows", desc, len, rows] =>
+    -- oracle: the number of result rows is within the proved bound for this declaration and data size
+    match Abi.parseDesc desc, len.toNat?, rows.toNat? with
+    | some is, some n, some k => match Abi.eventAbiType is with
+      | .ok t =>
+        let bound := max 1 (t.rowBound (n / 32))
+        if k ≤ bound then "ok" else s!"viol rows={k} exceed bound={bound} for {n} bytes"
+      | r => r.tag
+    | _, _, _ => "bad-op"
   | ["planflags", fields] =>
     let fs := if fields == "-" then [] else fields.splitOn ","
     let flags := Plan.plan fs
